@@ -1,6 +1,7 @@
 package main
 
 import (
+	"github.com/acquirecloud/golibs/ulidutils"
 	"context"
 	"errors"
 	"fmt"
@@ -720,7 +721,64 @@ func kvVersionBurst(ctx *Ctx, kind string, g, rounds int) {
 	}
 }
 
+// kvVersionStream: the version source itself (ulidutils.NewID, which both backends call for every write), asked
+// millions of times in a row from one goroutine and from four at once: no id may come back that was handed out
+// among the last 65536 — a repeat within one millisecond (a wrapped or zero increment of a hand-rolled monotonic
+// generator) is far too rare per pair of calls to show in a few thousand writes.
+func kvVersionStream(ctx *Ctx, n int) {
+	ctx.R.Case("inmem", "burst")
+	var mu sync.Mutex
+	const win = 1 << 16
+	ring := make([]string, win)
+	seen := make(map[string]int, win)
+	pos, dups := 0, 0
+	example := ""
+	note := func(id string) {
+		if at, dup := seen[id]; dup {
+			dups++
+			if example == "" {
+				example = fmt.Sprintf("id %s was handed out again %d calls later", id, pos-at)
+			}
+		}
+		if old := ring[pos%win]; old != "" && seen[old] == pos-win {
+			delete(seen, old)
+		}
+		ring[pos%win] = id
+		seen[id] = pos
+		pos++
+	}
+	for i := 0; i < n; i++ {
+		note(ulidutils.NewID())
+	}
+	var wg sync.WaitGroup
+	for g := 0; g < 4; g++ {
+		wg.Add(1)
+		go func() {
+			defer wg.Done()
+			for i := 0; i < n/8; i++ {
+				id := ulidutils.NewID()
+				mu.Lock()
+				note(id)
+				mu.Unlock()
+			}
+		}()
+	}
+	wg.Wait()
+	ctx.R.Op(fmt.Sprintf("burst 1 %d", pos), "ok")
+	ctx.R.Nontrivial("version stream")
+	if dups > 0 {
+		ctx.R.Quiet("mon C02-fresh-version", fmt.Sprintf("%d of %d consecutive ids of the version source repeat an id handed out among the previous 65536 (%s): a write can get the version the record already has, or had", dups, pos, example))
+	}
+}
+
 func runKvConc(ctx *Ctx, kind string) {
+	if kind == "inmem" {
+		if ctx.Thorough {
+			kvVersionStream(ctx, 12000000)
+		} else {
+			kvVersionStream(ctx, 3000000)
+		}
+	}
 	if ctx.Thorough {
 		kvVersionBurst(ctx, kind, 8, 6000)
 	} else {
